@@ -4,7 +4,7 @@ from __future__ import annotations
 import ast
 
 from sa.cfg import CFG, enumerate_paths
-from sa.model import AnalysisError, Model, walk_no_nested
+from sa.model import canon_text, AnalysisError, Model, walk_no_nested
 from sa.report import Report
 
 TITLE = "The virtual ECU answers by the ISO 14229-1 default response rules"
@@ -148,7 +148,14 @@ def run(m: Model, r: Report, tier: str) -> None:
     # ---------------------------------------------------------------- R3
     f1 = m.require_function(f"{SRV}.UDSServer.default_response_if_service_not_supported")
     t1 = decision_table(f1)
+    def _ct(t: str) -> str:
+        try:
+            return canon_text(t)
+        except SyntaxError:
+            return t
+
     def has_row(table, need_true: list[str], need_false: list[str], outcome: str) -> bool:
+        need_true, need_false = [_ct(x) for x in need_true], [_ct(x) for x in need_false]
         for conds, out, _ in table:
             tset = {c for c, v in conds if v}
             fset = {c for c, v in conds if not v}
@@ -189,7 +196,7 @@ def run(m: Model, r: Report, tier: str) -> None:
     src3 = ast.unparse(f3.node)
     t3 = decision_table(f3, m)
     outer = [n for n in walk_no_nested(f3.node) if isinstance(n, ast.If) and "_is_sub_function_request(request)" in ast.unparse(n.test)]
-    r.check(len(outer) == 1 and ast.unparse(outer[0].test).replace(" ", "") == "self._is_sub_function_request(request)andrequest.service_id!=UDSIsoServices.RoutineControl",
+    r.check(len(outer) == 1 and ast.unparse(outer[0].test) == canon_text("self._is_sub_function_request(request) and request.service_id != UDSIsoServices.RoutineControl"),
             "R3", f"{f3.qualname}#applicability", "the rule applies to sub-function services except RoutineControl", loc=f3.loc)
     sf = [n for n in ast.walk(f3.node) if isinstance(n, ast.Assign) and "request.pdu[1]" in ast.unparse(n.value)]
     r.check(len(sf) == 1 and ast.unparse(sf[0].value).replace(" ", "") in ("request.pdu[1]%128", "request.pdu[1]&127", "request.pdu[1]%0x80"), "R3",
@@ -252,7 +259,7 @@ def run(m: Model, r: Report, tier: str) -> None:
         outs = {full for _, o, full in tx}
         r.check(want in outs and outs <= {want, "None"}, "R3", f"{q}#table", f"outcomes {sorted(outs)}", loc=fx.loc)
         rows_pos = [({c for c, v in conds if v}, {c for c, v in conds if not v}) for conds, o, full in tx if full == want]
-        r.check(bool(rows_pos) and all(tset == set(need) and not fset for tset, fset in rows_pos), "R3", f"{q}#condition",
+        r.check(bool(rows_pos) and all(tset == {_ct(x) for x in need} and not fset for tset, fset in rows_pos), "R3", f"{q}#condition",
                 f"the positive default answer is given under {[(sorted(t), sorted(f_)) for t, f_ in rows_pos]}; expected exactly when {need}", loc=fx.loc)
 
     # ---------------------------------------------------------------- R4
@@ -293,8 +300,8 @@ def run(m: Model, r: Report, tier: str) -> None:
             "still interrupts a seed/key sequence)", loc=ru.loc)
     sa = m.require_function(f"{SRV}.RandomUDSServer.security_access")
     src = ast.unparse(sa.node)
-    r.check("self.state.last_sa_response is None or request.security_access_type != self.state.last_sa_response.security_access_type + 1" in src and
-            "UDSErrorCodes.requestSequenceError" in src and "request.security_key == expected_key" in src and "UDSErrorCodes.invalidKey" in src and
+    r.check(canon_text("self.state.last_sa_response is None or request.security_access_type != self.state.last_sa_response.security_access_type + 1") in src and
+            "UDSErrorCodes.requestSequenceError" in src and m.has(sa, "request.security_key == expected_key") and "UDSErrorCodes.invalidKey" in src and
             "self.state.last_sa_response = None" in src, "R5", f"{sa.qualname}#seed-key-sequence",
             "sendKey must be refused with requestSequenceError unless it directly follows the matching requestSeed, and a seed is valid for one attempt", loc=sa.loc)
 
